@@ -127,7 +127,10 @@ def DetSmallG (d : Det) (nested : Option Bytes) : Prop :=
   (serItems (detItemsG d nested)).length < 2 ^ 64 ∧ NestOK d nested
 
 theorem payName_ne_enc (p : Pay) (nf : Str × List Item) (h : payFields p = some nf) : nf.1 ≠ encName := by
-  cases p <;> simp [payFields] at h <;> (subst h; simp only []; decide)
+  match p, h with
+  | .str _, h | .strs _, h | .errno .., h | .mark .., h | .tags _, h | .http _, h | .grpc _, h | .testErr, h | .status _ _ 0, h =>
+    simp only [payFields, Option.some.injEq] at h; subst h; simp only []; decide
+  | .none, h | .raw .., h | .status _ _ (_ + 1), h => simp [payFields] at h
 
 theorem detItemsG_ok (d : Det) (nested : Option Bytes) (h : DetSmallG d nested) : ∀ x ∈ detItemsG d nested, x.ok := by
   obtain ⟨h1, h2, h3, h4, _, h6⟩ := h
